@@ -22,7 +22,7 @@ WalkSeqs(off, T) ==
 
 \* look: the bytes the walk does not arrive at are markers, or end-tag look-alikes (every 8-byte chunk of every payload
 \* reads type 0, size 8): the walk goes by the stored sizes, never by what the bytes in between look like
-WParams == UNION { { [T |-> T, hs |-> hs, look |-> lk] : hs \in WalkSeqs(8, T), lk \in BOOLEAN } : T \in {x \in 16..MaxT : x % 8 = 0} }
+WParams == UNION { { [T |-> T, hs |-> hs, look |-> lk] : hs \in WalkSeqs(8, T), lk \in {"marker", "endlike", "desc"} } : T \in {x \in 16..MaxT : x % 8 = 0} }
 
 RECURSIVE Place(_, _, _)
 \* byte image with the chosen headers placed along the walk
@@ -33,7 +33,10 @@ Place(mem, off, hs) ==
              off + RoundUp8(h.size), Tail(hs))
 
 WImage(p) ==
-  LET base == [i \in 1..p.T |-> IF p.look THEN EndTagBytes[((i - 1) % 8) + 1] ELSE Marker(i)]
+  \* ("desc": marker bytes descending with the position - of two adjacent words the later one is the smaller, e.g. a
+  \*  module tag whose end address lies below its start address; such a tag is a module tag like any other)
+  LET base == [i \in 1..p.T |-> IF p.look = "endlike" THEN EndTagBytes[((i - 1) % 8) + 1]
+                                ELSE IF p.look = "desc" THEN 250 - ((i * 3) % 249) ELSE Marker(i)]
       withH == Place(base, 8, p.hs)
       hdr == U32Bytes(p.T) \o <<0, 0, 0, 0>> IN
   [i \in 1..p.T |-> IF i <= 8 THEN hdr[i]
